@@ -182,6 +182,10 @@ class Assign:
             path = self._orig_path[:pae.part_idx]
             dest = scope[glom](dest_target, path, scope)
 
+        if op == '[':
+            # a T / Spec key is evaluated against the target, as when reading
+            arg = arg_val(target, arg, scope)
+
         # TODO: forward-detect immutable dest?
         _apply = lambda dest: _assign_op(
             dest=dest, op=op, arg=arg, val=val, path=path, scope=scope)
@@ -324,6 +328,9 @@ class Delete:
             if not self.ignore_missing:
                 raise
         else:
+            if op == '[':
+                # a T / Spec key is evaluated against the target, as when reading
+                arg = arg_val(target, arg, scope)
             _apply_for_each(lambda dest: self._del_one(dest, op, arg, scope), path, dest)
 
         return target
